@@ -261,6 +261,10 @@ def make_resample(scheme, n_particles, batches, with_blobs):
                 st.update_current({"u": u, "x": x, "logl": l, "blobs": b, "beta": 0.5, "logz": 0.0})
                 st.commit_current_to_history()
             w = rng.rand(N)
+            if trial % 3 == 1:
+                w[rng.randint(N)] = 0.0  # weights that underflowed to exactly zero occur in long histories
+            elif trial % 3 == 2 and N > 2:
+                w[rng.choice(N, size=N - 2, replace=False)] = 0.0
             w /= w.sum()
             rs = resample_mod.Resampler(st, n_particles=n_particles, resample=scheme, clusterer=None, clustering=False,
                                         have_blobs=with_blobs)
